@@ -26,6 +26,8 @@ pub struct RunReport {
     /// Distinct quiescent states seen (hashes).
     pub states: Vec<u64>,
     pub fault_injecting: bool,
+    /// Keyed loss probes: probe id -> keys (resolved from the hash argument).
+    pub keyed: BTreeMap<String, Vec<u16>>,
 }
 
 impl RunReport {
